@@ -267,7 +267,8 @@ class Extractor:
             outs = []
             for s, v in self.block(m.node.body, s0, m):
                 s2 = s.copy()
-                s2.env = saved_env
+                # every outcome continues in its own copy of the caller's frame
+                s2.env = saved_env if not outs else {k: (PyList(x.items) if isinstance(x, PyList) else x) for k, x in saved_env.items()}
                 outs.append((s2, v))
             return outs
         finally:
@@ -334,6 +335,17 @@ class Extractor:
                             nxt.extend(self.block(s.body, cur, m))
                         states = nxt
                     out.extend(states)
+                elif isinstance(it, SObj) and isinstance(s.target, ast.Name) and len(s.body) == 1 and not s.orelse and \
+                        isinstance(s.body[0], ast.Expr) and isinstance(s.body[0].value, ast.Call) and \
+                        isinstance(s.body[0].value.func, ast.Attribute) and s.body[0].value.func.attr == 'append' and \
+                        isinstance(s.body[0].value.func.value, ast.Name) and isinstance(s2.env.get(s.body[0].value.func.value.id), PyList) and \
+                        len(s.body[0].value.args) == 1:
+                    # for x in xs: acc.append(f(x))   is   acc += [f(x) for x in xs]
+                    comp = ast.ListComp(elt=s.body[0].value.args[0], generators=[ast.comprehension(target=s.target, iter=s.iter, ifs=[], is_async=0)])
+                    ast.copy_location(comp, s)
+                    for s3, v in self.listcomp(comp, s2, m):
+                        s3.env[s.body[0].value.func.value.id].items.extend(v.items)
+                        out.append((s3, _NORET))
                 else:
                     raise AnalysisError('templates: loop over a symbolic sequence in %s line %d' % (m.qname, s.lineno))
             return out
@@ -678,6 +690,11 @@ class Extractor:
             if name == 'str':
                 return [(st, ('str', self.as_doc(args[0], m, e.args[0])))] if not isinstance(args[0], SInt) else [(st, self.as_doc(args[0], m, e.args[0]))]
             if name == 'len':
+                if args and isinstance(args[0], SObj):
+                    # the argument seen from the template's own parameters (the call may sit in a helper)
+                    e2 = ast.Call(func=ast.Name(id='len', ctx=ast.Load()), args=[args[0].expr], keywords=[])
+                    ast.copy_location(e2, e)
+                    return [(st, ('len', e2))]
                 return [(st, ('len', e))]
             if name == 'int':
                 return [(st, ('sym', norm(e)))]
@@ -727,12 +744,8 @@ class Extractor:
                     raise AnalysisError('templates: extend with %r' % (args[0],))
             return [(st, None)]
         if name == 'generate' and isinstance(recv, tuple) and recv[0] == 'new':
-            gm = self.repo.lookup_method(recv[1], 'generate')
-            target = None
-            if gm is not None:
-                for n in own_nodes(gm.node):
-                    if isinstance(n, ast.Return) and isinstance(n.value, ast.Call) and isinstance(n.value.func, ast.Attribute):
-                        target = self.repo.lookup_method(self.cls, n.value.func.attr)
+            tname = dispatch_target(self.repo, recv[1])
+            target = self.repo.lookup_method(self.cls, tname) if tname else None
             if target is None:
                 raise AnalysisError('templates: cannot resolve %s.generate' % recv[1].name)
             return self.call(target, [recv], st)
@@ -746,6 +759,7 @@ class Extractor:
 
 
 _NORET = object()
+_UNKNOWN = object()
 
 
 def _cmp(op, a, b):
@@ -790,6 +804,30 @@ class RenderRaises(RenderError):
     """the emitter itself refuses the tree (a raise statement guards this shape)"""
 
 
+def dispatch_target(repo, c, method='generate'):
+    """name of the emitter method a code class hands itself to: ``return generator.X(self)`` or
+    ``return getattr(generator, self.ATTR)(self)`` with ATTR a string constant of the class"""
+    gm = repo.lookup_method(c, method)
+    if gm is None or len(gm.params) < 2:
+        return None
+    g = gm.params[1]
+    me = gm.params[0]
+    for n in own_nodes(gm.node):
+        if not (isinstance(n, ast.Return) and isinstance(n.value, ast.Call)):
+            continue
+        fn = n.value.func
+        if isinstance(fn, ast.Attribute) and is_name(fn.value, g):
+            return fn.attr
+        if isinstance(fn, ast.Call) and is_name(fn.func, 'getattr') and len(fn.args) == 2 and is_name(fn.args[0], g):
+            a = fn.args[1]
+            if isinstance(a, ast.Attribute) and is_name(a.value, me):
+                for k in repo.mro(c):
+                    v = k.class_attrs.get(a.attr)
+                    if v is not None:
+                        return v.value if isinstance(v, ast.Constant) and isinstance(v.value, str) else None
+    return None
+
+
 class TemplateSet:
     def __init__(self, repo, gen_cls=None, module='yp_generator'):
         self.repo = repo
@@ -798,14 +836,9 @@ class TemplateSet:
         self.by_class = {}       # code class name -> (method name, alternatives)
         self.methods = {}
         for c in repo.all_classes((module,)):
-            gm = c.methods.get('generate')
-            if gm is None or c is self.gen_cls:
+            if c is self.gen_cls:
                 continue
-            target = None
-            for n in own_nodes(gm.node):
-                if isinstance(n, ast.Return) and isinstance(n.value, ast.Call) and isinstance(n.value.func, ast.Attribute) and \
-                        is_name(n.value.func.value, gm.params[1] if len(gm.params) > 1 else 'generator'):
-                    target = n.value.func.attr
+            target = dispatch_target(repo, c)
             if target is None:
                 continue
             if target not in self.methods:
@@ -875,9 +908,38 @@ class TemplateSet:
         elif isinstance(v, tuple) and v and v[0] == 'cond' and len(v) == 5 and \
                 self._state_val(v[3], ind, loop) is not None and self._state_val(v[4], ind, loop) is not None:
             t = _cmp(v[2], self._state_val(v[3], ind, loop), self._state_val(v[4], ind, loop))
+        elif isinstance(v, tuple) and v and v[0] == 'cond' and len(v) == 5 and isinstance(v[2], (ast.Eq, ast.NotEq, ast.Is, ast.IsNot)) and \
+                self._sym_val(v[3], env, ind, loop) is not _UNKNOWN and self._sym_val(v[4], env, ind, loop) is not _UNKNOWN:
+            # operands seen from the template's own parameters (the comparison may sit in a helper)
+            a, b = self._sym_val(v[3], env, ind, loop), self._sym_val(v[4], env, ind, loop)
+            t = (a == b) if isinstance(v[2], (ast.Eq, ast.Is)) else (a != b)
+        elif isinstance(v, SObj):
+            t = bool(self._val(v.expr, env))
         else:
             t = bool(self._val(g.test, env))
         return t == g.polarity
+
+    def _sym_val(self, v, env, ind, loop):
+        if isinstance(v, SObj):
+            try:
+                return self._val(v.expr, env)
+            except RenderError:
+                return _UNKNOWN
+        if isinstance(v, SInt):
+            r = self._state_val(v, ind, loop)
+            return r if r is not None else _UNKNOWN
+        if isinstance(v, PyList) and not v.items:
+            return []
+        if isinstance(v, Lit):
+            return v.t
+        if isinstance(v, bool) or v is None:
+            return v
+        if isinstance(v, tuple) and v and v[0] == 'len':
+            try:
+                return self._val(v[1], env)
+            except RenderError:
+                return _UNKNOWN
+        return _UNKNOWN
 
     def choose(self, alts, env, ind, loop):
         ok = [(gs, d, net) for gs, d, net in alts if all(self._guard_ok(g, env, ind, loop) for g in gs)]
